@@ -8,7 +8,7 @@ from vlib import Stream, BUILD, model_cmd
 ID = "C15"
 LEAN_MODULES = ["HgVerif.Props.NestFlowCor", "HgVerif.Props.C15", "HgVerif.Props.C02Fail", "HgVerif.Props.C15Flow", "HgVerif.Props.C15Run", "HgVerif.Props.C10", "HgVerif.Model.Engine", "HgVerif.Model.Extracted"]
 THEOREMS = ["HgVerif.NestFlow.nested_noninterference", "HgVerif.Tie.tie_resumeChecksFailed", "HgVerif.Sched.failed_cycle_restarts", "HgVerif.Sched.stale_cursor_skips_prefix",
-            "HgVerif.Sched.fresh_cycle_scans_all", "HgVerif.Sched.armed_wakeup_survives_failure", "HgVerif.Tie.tie_failKeepsWakeups", "HgVerif.Flow.sol_agree_on", "HgVerif.Flow.cycle_noninterference", "HgVerif.Flow.idle_cycle_keeps", "HgVerif.Flow.no_due_no_fire", "HgVerif.Flow.solo_cycle_keeps", "HgVerif.Flow.due_forces", "HgVerif.Flow.run_noninterference", "HgVerif.Flow.streams_noninterference", "HgVerif.MapNode.map_error_keyed", "HgVerif.Sched.fresh_when_cursor_zero", "HgVerif.Sched.stale_cursor_witness"]
+            "HgVerif.Sched.fresh_cycle_scans_all", "HgVerif.Sched.armed_wakeup_survives_failure", "HgVerif.Tie.tie_failKeepsWakeups", "HgVerif.Flow.sol_agree_on", "HgVerif.Flow.cycle_noninterference", "HgVerif.Flow.idle_cycle_keeps", "HgVerif.Flow.no_due_no_fire", "HgVerif.Flow.solo_cycle_keeps", "HgVerif.Flow.due_forces", "HgVerif.Flow.run_noninterference", "HgVerif.Flow.streams_noninterference", "HgVerif.Flow.simLoop_proj", "HgVerif.Flow.logF_transparent", "HgVerif.MapNode.map_error_keyed", "HgVerif.Sched.fresh_when_cursor_zero", "HgVerif.Sched.stale_cursor_witness"]
 CXX_TARGETS = ["hgv_engine", "hgv_map"]
 USES_EXTRACT = True
 RULE = ("generated programs with a capturing node (exception_time_series) or a try_except-wrapped chain sub-graph whose "
@@ -24,7 +24,7 @@ LEVEL_TEXT = ("Kernel-checked: after a failed (captured) evaluation the next eva
               "pending beside the failing node survive (armed_wakeup_survives_failure, after fix F5). Non-interference for flat "
               "dataflows with arbitrary node functions: whatever the nodes outside a producer-closed set U compute (fail, succeed, "
               "schedule), every node of U ends each cycle with the same state and the same schedule slot, and a cycle it does not take "
-              "part in is invisible to it (cycle_noninterference, idle_cycle_keeps). RUN LEVEL (Props/C15Run.lean): over whole simulation runs of two programs that agree on U - which in general make DIFFERENT cycles, the failing node may lose or cause wake-ups - every node of U ends with the same state (run_noninterference, a two-sided stuttering argument: cycles without a due node of U are invisible to U, wake-ups of U are never skipped by either run) and, since the state type is arbitrary, has produced the same whole stream of (time, value) evaluations (streams_noninterference). The executable "
+              "part in is invisible to it (cycle_noninterference, idle_cycle_keeps). RUN LEVEL (Props/C15Run.lean): over whole simulation runs of two programs that agree on U - which in general make DIFFERENT cycles, the failing node may lose or cause wake-ups - every node of U ends with the same state (run_noninterference, a two-sided stuttering argument: cycles without a due node of U are invisible to U, wake-ups of U are never skipped by either run) and, since the state type is arbitrary, has produced the same whole stream of (time, value) evaluations (streams_noninterference; the logging instrumentation is proved transparent: logF_transparent). The executable "
               "engine model (same Sched.cycle definition) is compared trace-for-trace with the real runtime on generated "
               "programs, and every implementation trace is checked against a dataflow reading that demands one error tick in "
               "the failing cycle, undisturbed independent streams and normal later cycles."
